@@ -38,7 +38,7 @@ type namedVal struct {
 }
 
 func c06Keywords() []namedVal {
-	return []namedVal{{`"k"`, "k"}, {`"j"`, "j"}, {`""`, ""}, {"Stringer(S)", strer{"S"}}, {"42", 42}, {"nil", nil}}
+	return []namedVal{{`"k"`, "k"}, {`"j"`, "j"}, {`""`, ""}, {"Stringer(S)", strer{"S"}}, {"42", 42}, {"nil", nil}, {"enumKw(0)", enumKw(0)}, {"enumKw(1)", enumKw(1)}}
 }
 
 func c06Operators() []namedVal {
@@ -70,10 +70,18 @@ func acceptKw(v any, prev string) string {
 	case string:
 		return tv
 	case fmt.Stringer:
+		if reflect.ValueOf(v).IsZero() {
+			return prev // a zero value has nothing to say (whatever its String method would print)
+		}
 		return tv.String()
 	}
 	return prev
 }
+
+// enumKw is a Stringer of integer kind whose zero value prints a non-empty text.
+type enumKw int
+
+func (e enumKw) String() string { return [...]string{"unset", "person", "group"}[int(e)%3] }
 
 func acceptOp(v any) (stackage.Operator, bool) {
 	if v == nil {
